@@ -80,6 +80,56 @@ pub fn run(cx: &mut Ctx) {
     fast_path(cx, &esc);
     writer_reader(cx, "C16.W1");
     printable_predicate(cx);
+    layout_provenance(cx, &esc);
+    // the repr is read back by the literal decoder: its escape table is part of the round trip
+    if let Ok(refd) = tables::refdata(&cx.verif, "py311_escapes.json") {
+        cx.refdata.insert("py311_escapes.json".into());
+        crate::rules::c06::escape_table(cx, &refd, "C16.E1");
+    }
+}
+
+/// L1: a layout's length belongs to its quote.
+fn layout_provenance(cx: &mut Ctx, esc: &Src) {
+    let rule = "C16.L1";
+    cx.rule(rule, "an announced length is only ever paired with the quote it was computed for: outside output_layout_with_checker (which computes length and quote together) every `EscapeLayout { .. }` literal has `len: None` — a constructor that installs a quote chosen by the caller must not borrow the length computed for the preferred quote, or the fast path would copy a string that contains the forced quote unescaped");
+    cx.floor(rule, 2);
+    struct V<'a> {
+        in_layout_fn: usize,
+        sites: &'a mut Vec<(bool, String, usize)>, // (inside the layout function, len text, line)
+    }
+    impl<'a, 'ast> syn::visit::Visit<'ast> for V<'a> {
+        fn visit_impl_item_fn(&mut self, f: &'ast syn::ImplItemFn) {
+            let inside = f.sig.ident == "output_layout_with_checker";
+            if inside {
+                self.in_layout_fn += 1;
+            }
+            syn::visit::visit_impl_item_fn(self, f);
+            if inside {
+                self.in_layout_fn -= 1;
+            }
+        }
+        fn visit_expr_struct(&mut self, st: &'ast syn::ExprStruct) {
+            if st.path.segments.last().map_or(false, |s| s.ident == "EscapeLayout") {
+                let len = st.fields.iter().find(|f| sm::ts(&f.member) == "len").map(|f| sm::tsc(&f.expr)).unwrap_or_else(|| "<rest>".into());
+                self.sites.push((self.in_layout_fn > 0, len, sm::line(syn::spanned::Spanned::span(&st.path))));
+            }
+            syn::visit::visit_expr_struct(self, st);
+        }
+    }
+    let mut sites = vec![];
+    use syn::visit::Visit;
+    V { in_layout_fn: 0, sites: &mut sites }.visit_file(&esc.file);
+    let outside: Vec<&(bool, String, usize)> = sites.iter().filter(|s| !s.0).collect();
+    if outside.len() < 2 || sites.iter().filter(|s| s.0).count() < 2 {
+        return cx.fail(rule, &format!("{}/anchors", rule), &esc.rel, &format!("{} EscapeLayout literals outside and {} inside the layout function (2 and at least 2 expected)", outside.len(), sites.len() - outside.len()));
+    }
+    for (_, len, line) in outside {
+        if len == "None" {
+            cx.ok(rule, &format!("line {}: a forced quote comes with an unknown length (escaping writer)", line));
+        } else {
+            cx.fail(rule, &format!("{}/foreign-length", rule), &format!("{}:{}", esc.rel, line), &format!("an EscapeLayout is built with len `{}` outside the layout computation: the length may have been computed for another quote", len));
+        }
+    }
 }
 
 /// P1: which code points are written verbatim.
